@@ -7,6 +7,7 @@ import (
 	"os/exec"
 	"strings"
 	"testing"
+	"unicode"
 
 	"pgregory.net/rapid"
 	"verif/lib/harness"
@@ -169,7 +170,7 @@ func genObjData(rt *rapid.T, depth int) *spec.Value {
 
 func TestC14_Objects(t *testing.T) {
 	c := harness.New(t, "C14", "objects",
-		fmt.Sprintf("objects with 2..12 keys (literals, data maps, structs, nested) printed with {{ }} and @dump, joined inside arrays, concatenated through str-like functions, iterated programs around them; each case rendered %d times in one process: every result must equal the first byte for byte. Non-trivial: an object with >= 2 keys is printed or dumped (all cases). Distinct by hash.", c14Reps))
+		fmt.Sprintf("objects with 2..12 keys (literals, data maps, structs, nested) printed with {{ }} and @dump, joined inside arrays, concatenated through str-like functions, iterated programs around them, and keys looked up (dot, index, after assignment, inside @dump) under a spelling that differs in case from keys of which several are equal ignoring case; each case rendered %d times in one process: every result must equal the first byte for byte. Non-trivial: an object with >= 2 keys is printed or dumped (all cases). Distinct by hash.", c14Reps))
 	defer c.Finish()
 	runRapid(t, c, 700, 9000, func(rt *rapid.T) {
 		var cs detCase
@@ -181,6 +182,54 @@ func TestC14_Objects(t *testing.T) {
 			cs.Src = fmt.Sprintf(form, "obj")
 		} else {
 			cs.Src = fmt.Sprintf(form, tw.ExprString(genObjExpr(rt, 1), nil))
+		}
+		if rapid.IntRange(0, 2).Draw(rt, "lookup") == 0 {
+			// look a key up under a spelling that differs in case from the keys (several
+			// keys may be equal ignoring case): value or error, the same every time
+			keys := []string{"id", "ID", "Id", "name", "Name", "NAME", "ab", "Ab", "AB", "userID", "UserId"}
+			n := rapid.IntRange(2, 6).Draw(rt, "nLookupKeys")
+			ks := rapid.SliceOfNDistinct(rapid.SampledFrom(keys), n, n, rapid.ID[string]).Draw(rt, "lookupKeys")
+			base := []byte(rapid.SampledFrom(ks).Draw(rt, "lookupBase"))
+			for i := range base {
+				switch rapid.IntRange(0, 2).Draw(rt, "flip") {
+				case 0:
+					base[i] = byte(unicode.ToUpper(rune(base[i])))
+				case 1:
+					base[i] = byte(unicode.ToLower(rune(base[i])))
+				}
+			}
+			variant := string(base)
+			lookup := rapid.SampledFrom([]string{"{{ (%s).%s }}", "{{ (%s)[\"%s\"] }}", "@dump((%s).%s)", "{{ x = %s; x.%s }}"}).Draw(rt, "lookupForm")
+			form = "lookup " + lookup
+			if rapid.Bool().Draw(rt, "lookupData") {
+				vals := make([]*spec.Value, len(ks))
+				for i := range vals {
+					vals[i] = spec.Any(spec.IntOf(spec.TInt, int64(10+i)))
+				}
+				var obj *spec.Value = spec.Map(spec.T(spec.TAny), ks, vals)
+				if rapid.Bool().Draw(rt, "lookupStruct") {
+					var names []string
+					var fv []*spec.Value
+					for i, k := range ks {
+						if k[0] >= 'A' && k[0] <= 'Z' {
+							names = append(names, k)
+							fv = append(fv, spec.IntOf(spec.TInt, int64(10+i)))
+						}
+					}
+					if len(names) >= 2 {
+						obj = spec.Struct(names, fv)
+					}
+				}
+				cs.Data = (&spec.Data{}).Add("obj", obj)
+				cs.Src = fmt.Sprintf(lookup, "obj", variant)
+			} else {
+				vals := make([]*tw.Expr, len(ks))
+				for i := range vals {
+					vals[i] = intLit(int64(10 + i))
+				}
+				cs.Data = nil
+				cs.Src = fmt.Sprintf(lookup, tw.ExprString(tw.Obj(ks, vals), nil), variant)
+			}
 		}
 		c.Case(true, cs.Src+mustJSON(cs.Data), "form:"+form)
 		c.Sample(cs.sample())
